@@ -3,6 +3,7 @@ package worldp
 import (
 	"bytes"
 	"context"
+	"crypto/sha256"
 	"crypto/x509"
 	"encoding/pem"
 	"fmt"
@@ -214,6 +215,9 @@ func c03Verify(r *core.Run, cfg worlda.Config, vcs *seams.SimVCS, e *issued, rot
 		r.Fail("genuine-rejected", "file-missing", "%s: endorsement file %s is not in the repository head", cfg, e.path)
 		return
 	}
+	// the emitted bytes are part of the run's record: a run is only replayable if they are a
+	// function of its trace (hooks H3 and H4, DetReader salts); the determinism self-test watches it
+	r.Eventf("emitted %s sha256=%x", e.path, sha256.Sum256(raw))
 	var le epb.VMLaunchEndorsement
 	if err := proto.Unmarshal(raw, &le); err != nil {
 		r.Fail("genuine-rejected", "file-unparseable", "%s: %s does not parse: %v", cfg, e.path, err)
